@@ -74,18 +74,18 @@ PROPS = {
             "rule": "cases = (document, read schedule) pairs read by the real fastcsv reader / ReadCSV and replayed through the L0 mirror (exact rows, errors, stale bytes) "
                     "and the RFC 4180 scanner (what the document denotes); distinct by transcript line; every generated document has quotes, delimiters or line breaks in cells with probability > 1/2"},
     "C16": {"lean": ["QF.Props.C16", "QF.Props.C16Tables", "QF.Props.C16Layouts", "QF.Props.C16Round", "QF.Props.C16Core", "QF.Props.C16CoreLoops",
-                     "QF.Props.C16CoreStep4", "QF.Props.C16CoreMain", "QF.Props.C16CoreFlags", "QF.Props.C16CoreTable", "QF.Props.C16CoreCheck"],
-            "extra_ns": ["QF.Props.C16Round", "QF.Props.C16Core"],
+                     "QF.Props.C16CoreStep4", "QF.Props.C16CoreMain", "QF.Props.C16CoreFlags", "QF.Props.C16CoreTable", "QF.Props.C16CoreCheck", "QF.Props.C16Farey", "QF.Props.C16PrecisionCheck", "QF.Props.C16Precision",
+                     "QF.Props.C16LinkInterval", "QF.Props.C16LinkScale", "QF.Props.C16LinkText", "QF.Props.C16Link", "QF.Props.C16LinkFinal"],
+            "extra_ns": ["QF.Props.C16Round", "QF.Props.C16Core", "QF.Props.C16Link"],
             "sections": [{"section": "ryu", "quick": 300, "thorough": 5500, "cover_ops": {"F"}},
                          dict({"section": "hist", "tag": "hist-jsonfloat", "opt": "floatheavy=1," + mix("tojson", "tojson", "sort", "filter"), "quick": 120, "thorough": 1500},
                               cover_ops={"tojson"}, owns=lambda m: m["op"] == "tojsonfloat")],
-            "open_goals": ["Ryu's precision lemma is the one hypothesis left: QF.Props.C16Core.ryu_shortest_partial proves, for the mirror QF.Ryu64.float64ToDecimal (tied to the implementation by exact replay on every generated float) and every finite non-zero float64, "
-                           "that the decimal is in the rounding interval, has the fewest digits, and is a closest one of that length - under the hypothesis that the three mulShift64 results of step 3 are the exact floors of mv, mp, mm times 2^e2/10^e10. "
-                           "ryu_shortest_of_table_precision reduces this to arithmetic about the table entries only: floor(m * multiplier / 2^shift) = floor(m * N / D) for m in {mv, mp, mm} (the 64/128-bit machine arithmetic is discharged for all exponents by mulShift64_exact + shape_check*; "
-                           "mulVal_pos / mulVal_neg identify the multipliers with the correctly rounded 121/122-bit powers of five of C16Tables). NOT proved for all 2^64 floats: that these two floors agree for every m < 2^55 (Lemma 3.3/3.4 of the Ryu paper, which needs a minimum/maximum of m*5^a mod 2^b style computation per exponent). "
-                           "It is decided by exact arithmetic for every generated float (floorsHold / ryu_shortest_of_check, MIRROR-MISMATCH kind=hypothesis), so on the explored floats the theorem applies; the unbounded claim for every float64 remains tested, not proved",
-                           "the link from QF.Props.C16Core.Spec (interval, shortest, closest in units of 10^e10) to Num.isShortestRoundTrip / Num.ofDecimal (C16Round) is not stated as a theorem; interval_value / interval_upper / interval_lower identify the interval ends with the midpoints to Num.decode's neighbours and scale_meaning the units",
-                           "the digit layouts of appendF for d.e < 0 (0.XYZ and Y.XZ) and the formatter's use of decimalLen64 are covered by C16Layouts / replay, not by C16Core (decimalLen64_spec is proved)"],
+            "open_goals": ["nothing is left open about the mirror pipeline: QF.Props.C16Link.ryu_text_is_shortest proves, for every finite non-zero float64 (either sign) and every buffer state, that the text appended by QF.Props.C16Link.appendF for the decimal of QF.Ryu64.decimal "
+                           "passes Num.isShortestRoundTrip and Num.parsesTo and that any correct IEEE parser returns exactly the float (parsesTo_unique) - no hypotheses. Ryu's precision lemma is proved (QF.Props.C16Core.ryu_shortest, C16Precision / C16PrecisionCheck / C16Farey); the per-float form of the hypothesis of "
+                           "ryu_shortest_partial (floorsHold) is false for exactly two floats (hypothesis_fails), which ryu_shortest treats directly, so ryu_text_is_shortest_partial / ryu_text_is_shortest_of_check are kept only as the conditional forms. "
+                           "The link to the property's own words is QF.Props.C16Link: interval_iff_roundtrip (in the rounding interval of step 2 <=> Num.ofDecimal returns the float), shortest_of_spec / spec_implies_isShortest (C16Core.Spec => isShortestRoundTrip of the laid-out text, clause by clause), shortest_of_exactInt (fast path), decimal_shortest",
+                           "what remains hand-read: QF.Props.C16Link.appendF (sign, decimalLen64, dispatch over AF.layoutInt / C16.layoutFrac / C16.layoutMixed) is assembled from the proved layout mirrors and mirrors dec64.appendF / AppendFloat64f by reading; unlike Ryu64.decimal (compared exactly with the implementation on every generated float) "
+                           "the assembled pipeline is not regenerated from the source or replayed as a whole (the replay driver judges the implementation's bytes with isShortestRoundTrip directly)"],
             "rule": "cases = (float64 bit pattern, buffer state) through the formatter and ToJSON of float-heavy frames (every float token of the output); each output is checked against the Lean definition of shortest round-trip text (exact big-number arithmetic, QF.Num.isShortestRoundTrip) and against strconv; "
                     "the decimal (m, e, exact-integer flag) of the Ryu core must equal the one computed by the mirror QF.Ryu64 (MIRROR-MISMATCH kind=mirror) and the hypothesis of ryu_shortest_partial (exact mulShift64 floors) must hold for it (kind=hypothesis); "
                     "generator: special values, all exponents x boundary mantissas, exact integers, powers of ten +-1ulp, short decimals, subnormals, random bits; distinct by (bits, prefix, spare)"},
